@@ -144,9 +144,17 @@ def f_eval(t, seen):
 
 
 def program(form, t, n):
+    looped = form.endswith("_loop")
+    form = form.replace("_loop", "")
     expr = f_src(t, (lambda i: "E%d()" % i) if form == "match" else (lambda i: "f%d" % i))
     expr = expr[1:-1]  # top-level parentheses are optional
     flows = "".join("flow f%d\n  match E%d()\n\n" % (i, i) for i in range(n))
+    if looped:  # the statement is re-entered after every completion: "since the statement became active" restarts
+        if form == "match":
+            return "flow main\n  while True\n    match %s\n    send Done()\n" % expr
+        if form == "await":
+            return flows + "flow main\n  while True\n    await %s\n    send Done()\n" % expr
+        return flows + "flow main\n  while True\n    when %s\n      send Done()\n" % expr
     if form == "match":
         return "flow main\n  match %s\n  send Done()\n  match Never()\n" % expr
     if form == "await":
@@ -155,6 +163,7 @@ def program(form, t, n):
 
 
 FORM = sl("form", "match")
+LOOPED = FORM.endswith("_loop")
 NL = int(sl("leaves", 2))
 FIDX = int(sl("f", 0))
 SEQ = int(sl("seq", 3))
@@ -189,13 +198,15 @@ def group_first_moment(s0: int, s1: int, s2: int, s3: int, s4: int, c0: int, c1:
             seen.add(k)
         v2.run_to_completion(st, {"type": name})
         n_done = v2.out_names(st).count("Done")
-        want_now = f_eval(t, seen) and fired == 0
+        want_now = f_eval(t, seen) and (fired == 0 or LOOPED)
         trace.append((name, n_done))
         if not v2.is_tracing():
             LAST_INFO = {"program": src, "events": list(trace), "expected_done_at_this_step": want_now}
         if n_done != (1 if want_now else 0):
             return False
         fired += n_done
+        if LOOPED and n_done:
+            seen = set()  # a fresh activation starts with an empty history
     return True
 
 
@@ -231,7 +242,7 @@ SPEC = {
     "bounds": "tie-breaks: 4 symbolic outcomes of the interpreter's random.choice per run; (a) every binary and/or formula of depth<=3 over 8 positional leaves (3^7 shapes) x every truth assignment; "
               "(b) every binary and/or tree over 2..3 (thorough 4) distinct leaves in order (2 + 8 + 40 formulas) for `match` on events, `await` and `when` on flows; "
               "every event sequence of length 3 (n<=3) / 4 (thorough) over {E0..En-1, Irrelevant}, checked after every step",
-    "outside": "more than 4 distinct leaves; the same leaf written twice in one formula; groups mixing actions and flows; event payloads (events are parameterless)",
+    "outside": "re-entered statements (`while True` loop around the group) are covered for match (3 leaves) and await (2 leaves; thorough: await/when 3 leaves) only; more than 4 distinct leaves; the same leaf written twice in one formula; groups mixing actions and flows; event payloads (events are parameterless)",
     "assumptions": ["the state (parse + expand_elements + initialize) is rebuilt from source text on every path; parse untraced, expansion traced"],
     "explanation": "Oracle: truth-table equality for the DNF; for run time, #Done emitted at step k == 1 iff formula(seen_k) and not fired before, else 0.",
     "conditions": [
@@ -239,11 +250,12 @@ SPEC = {
          "smoke": [{"slice": {}, "args": dict(k0=1, k1=2, k2=2, k3=0, k4=1, k5=0, k6=0, b0=True, b1=False, b2=False, b3=True, b4=True, b5=False, b6=False, b7=False)}]},
         {"fn": "dnf_twin", "expect": "counterexample", "slices": [{}], "tcond": 120, "tpath": 10, "bound": "twin"},
         {"fn": "group_first_moment", "tiers": ("quick",), "slices": _slices("match", 2, 3) + _slices("match", 3, 3) + _slices("await", 2, 3) + _slices("await", 3, 2, [2, 6])
-            + _slices("when", 2, 3) + _slices("when", 3, 2, [2, 6]), "tcond": 600, "tpath": 30,
+            + _slices("when", 2, 3) + _slices("when", 3, 2, [2, 6]) + _slices("match_loop", 3, 3, [0, 1, 5, 6]) + _slices("await_loop", 2, 3) , "tcond": 600, "tpath": 30,
          "bound": "match: all 2-3 leaf formulas; await/when: all 2-leaf + 2 mixed 3-leaf formulas; all sequences of 3 events (2 for the 3-leaf await/when formulas)",
          "smoke": [{"slice": {"form": "await", "leaves": 3, "f": 1, "seq": 4}, "args": dict(s0=3, s1=0, s2=2, s3=1, s4=0, c0=0, c1=1, c2=0, c3=0)}]},
         {"fn": "group_first_moment", "tiers": ("thorough",), "slices": _slices("match", 4, 4) + _slices("await", 3, 4) + _slices("when", 3, 4)
-            + _slices("await", 4, 4, [1, 6, 9, 17, 22, 30, 33, 38]) + _slices("when", 4, 4, [1, 6, 9, 17, 22, 30, 33, 38]), "tcond": 3000, "tpath": 60,
+            + _slices("await", 4, 4, [1, 6, 9, 17, 22, 30, 33, 38]) + _slices("when", 4, 4, [1, 6, 9, 17, 22, 30, 33, 38])
+            + _slices("match_loop", 3, 4) + _slices("await_loop", 3, 4, [1, 2, 5, 6]) + _slices("when_loop", 3, 4, [1, 2, 5, 6]), "tcond": 3000, "tpath": 60,
          "bound": "match: all 40 4-leaf formulas; await/when: all 3-leaf + 8 4-leaf formulas; all sequences of 4 events"},
         {"fn": "group_twin", "expect": "counterexample", "slices": [{"form": "match", "leaves": 3, "f": 1, "seq": 3}, {"form": "await", "leaves": 2, "f": 0, "seq": 3}, {"form": "when", "leaves": 2, "f": 1, "seq": 3}],
          "tcond": 300, "tpath": 30, "bound": "twin"},
